@@ -246,9 +246,10 @@ class Worker:
             self.flush(pending)
             if self.drv is not None and self.drv.alive:
                 try:
-                    st = self.drv.batch(['stat', 'hits'])
+                    st = self.drv.batch(['stat', 'hits', 'evts'])
                     self.res['stat'] = dict(x.split('=') for x in st[0].split()[1:])
                     self.res['hits'] = {int(a): int(b) for a, b in (x.split(':') for x in st[1].split()[1:])}
+                    self.res['evts'] = sorted({tuple(int(y) for y in x.split(':')) for x in st[2].split()[1:]})
                 except Exception:
                     pass
         except Exception as ex:
@@ -348,6 +349,7 @@ def aggregate(jobs, results):
         pv = agg['per_variant'].setdefault(v, dict(evaluations=0, cases=0, wall_max=0))
         pv['evaluations'] += r['evaluations']; pv['cases'] += r['cases']; pv['wall_max'] = max(pv['wall_max'], round(r.get('wall', 0), 1))
         for k, n in r.get('hits', {}).items(): agg['hits'][k] = agg['hits'].get(k, 0) + n
+        agg.setdefault('evts', set()).update(tuple(e) for e in r.get('evts', []))
         for k, n in r.get('stat', {}).items():
             try: agg['stat'][k] = agg['stat'].get(k, 0) + int(n)
             except ValueError: pass
@@ -383,6 +385,7 @@ def main(modname, argv=None):
                calls_per_function=dict(sorted(agg['ops'].items())), notes=agg['notes'][:10],
                unreproduced_driver_deaths=agg['unrepro'], recorder=agg['stat'], tree=build.tree_hash())
     if agg['hits']: cov['hook_hits'] = {str(k): v for k, v in sorted(agg['hits'].items())}
+    if agg.get('evts'): cov['hook_events'] = sorted(agg['evts'])[:400]
     extra_fail = []
     inconc = None
     if hasattr(mod, 'post'):
